@@ -162,6 +162,39 @@ example : keyStruct d0 (.attr 4 0) ≠ keyStruct d0 (.attr 4 1) := by
     (by decide) (by decide) h
   cases this
 
+/-! ## `hashInj_holds`: `HashInj d0` as an instance of the theorem (no evaluation of the keys) -/
+
+/-- **`hashInj_holds`** on `d0` (`WF` by the executable check, `AttrTriplesDistinct` from the attribute
+names being distinct) -/
+theorem hashInj_d0' : PathSem.HashInj d0 {} := PathSem.hashInj_of_attrNames wf_d0 d0_attrNames.1 {}
+
+/-- a document on which the side condition of `hashInj_holds` fails — `<r x="1" x="1"/>` (not XML, but a
+`Doc`): well-formed as a tree, and the two attributes have the same key, so `HashInj` is false -/
+def dDup : Doc :=
+  [⟨0, .root, "", "", "", "", []⟩,
+   ⟨1, .elem, "", "r", "", "", [⟨"", "x", "", "1"⟩, ⟨"", "x", "", "1"⟩]⟩]
+
+theorem wf_dDup : WF dDup := wf_of_wfb (by decide)
+
+theorem not_hashInj_dDup : ¬ PathSem.HashInj dDup {} := by
+  intro h
+  have := PathSem.attrTriples_of_hashInj h 1 0 1 (by decide) (by decide) (by decide) rfl rfl rfl
+  cases this
+
+/-- **`C11_main_unconditional`** on `//a | /r/*[@x]`: every hypothesis discharged, none of them about
+keys or hashes -/
+theorem C11_main_unconditional_instance : ∃ (o : BOut), ∃ out,
+    sel (F := Int) d0 {} o.q (.node 0) = .ok out ∧ (refs out).Nodup ∧
+    ∀ x, x ∈ refs out ↔ x ∈ [Ref.node 2, .node 4, .node 6] := by
+  obtain ⟨o, hb⟩ : ∃ o, build (fun _ => true) 100 true false (.oper "|" pA pX) {} {} = .ok o :=
+    exists_ok (by decide +kernel)
+  obtain ⟨out, nsA, gA, nsB, gB, nsU, h1, h2, _, _, _, h6, _, _, h9⟩ :=
+    Theorems.C11.C11_main_unconditional (F := Int) wf_d0 {} rfl d0_attrNames.1.triples (fun _ => true) 100
+      pA pX pA_frag pX_frag {} {} o hb (.node 0) (by decide)
+  have e := value_of_eval h6 (v' := .nodes [.node 2, .node 4, .node 6]) (by decide +kernel)
+  cases e
+  exact ⟨o, out, h1, h2, h9⟩
+
 end XPathV.Theorems.NonVacuity.C11
 
 section AxiomAudit
